@@ -128,6 +128,12 @@ class World:
     def mkdir(self, rel):
         os.makedirs(self.abspath(rel), exist_ok=True)
 
+    def rename(self, src, dst, who="user"):
+        os.makedirs(os.path.dirname(self.abspath(dst)), exist_ok=True)
+        os.rename(self.abspath(src), self.abspath(dst))
+        self.seq += 1
+        self.writes.append((self.seq, src, None, who))
+
     def read(self, rel):
         with open(self.abspath(rel), "rb") as fh:
             return fh.read()
@@ -377,6 +383,8 @@ class Sim:
         self.exceptions = []  # non-usage exceptions seen in RPC replies or tasks
         self.rpc_replies = []
         self.cmd_windows = []  # (label, job_i, start_ev, end_ev, returncode)
+        self.inotifies = []
+        self.ino_waiters = []
         self.monitor = []  # violations found by monitors while the session runs
         self.flags = set()
         self.counters = {}
@@ -546,11 +554,10 @@ class Sim:
 
         self._patch(su_finalize, "_try_remove", try_remove)
 
-        fake_inotify = self.cfg.get("inotify")
-        if fake_inotify is not None:
+        if self.cfg.get("do_watch"):
             from stepup.core import watcher as su_watcher
 
-            self._patch(su_watcher, "Inotify", fake_inotify)
+            self._patch(su_watcher, "Inotify", make_gated_inotify(self))
         for obj, name, value in self.cfg.get("extra_patches", ()):
             self._patch(obj, name, value)
         for factory in self.cfg.get("monitors", ()):
@@ -635,12 +642,42 @@ class Sim:
         """Run until quiescent. Returns True when the session ended."""
         try:
             self.loop.run_ready()
+            while self._poke_inotify():
+                self.loop.run_ready()
         except Crash:
             self.crashed = True
             return True
         if self.crashed:
             return True
         return self.main.done()
+
+    def _poke_inotify(self):
+        """Hand kernel events that became available to the tasks blocked in Inotify.get()."""
+        woke = False
+        for ino, fut in list(self.ino_waiters):
+            if fut.done():
+                self.ino_waiters.remove((ino, fut))
+                continue
+            ev = ino.sync_get()
+            if ev is not None:
+                ino._vbuf.append(ev)
+                self.ino_waiters.remove((ino, fut))
+                fut.set_result(None)
+                woke = True
+        return woke
+
+    def inotify_idle(self):
+        """No kernel event is waiting to be delivered or processed."""
+        if any(g.kind == "ino" and not g.fut.done() for g in self.gates):
+            return False
+        for ino in self.inotifies:
+            if ino._vbuf:
+                return False
+            ev = ino.sync_get()
+            if ev is not None:
+                ino._vbuf.append(ev)
+                return False
+        return True
 
     def run(self, chooser):
         """Drive the session to its end. `chooser(sim, enabled) -> index`."""
@@ -704,6 +741,9 @@ class Sim:
                         self.db._con.rollback()
                 self.db._con.close()
                 self.db._con = None
+            for ino in self.inotifies:
+                with contextlib.suppress(Exception):
+                    ino.close()
             # drop pending tasks without running them
             if self.loop is not None:
                 for task in asyncio.all_tasks(self.loop):
@@ -1018,6 +1058,34 @@ class Sim:
         else:
             for path in ng.files():
                 await self._run_actions(proc, _subst(body, {"path": str(path)}))
+
+
+def make_gated_inotify(sim):
+    """The real kernel inotify (asyncinotify.Inotify), read without blocking; only the moment at
+    which an event is handed to the watcher is decided by the explorer."""
+    from asyncinotify import Inotify
+
+    class GatedInotify(Inotify):
+        def __init__(self, *a, **k):
+            super().__init__(sync_timeout=0)
+            self._vbuf = []
+            sim.inotifies.append(self)
+
+        async def get(self):
+            while True:
+                if not self._vbuf:
+                    ev = self.sync_get()
+                    if ev is None:
+                        fut = sim.loop.create_future()
+                        sim.ino_waiters.append((self, fut))
+                        await fut
+                        continue
+                    self._vbuf.append(ev)
+                ev = self._vbuf[0]
+                await sim.gate("ino", f"{ev.path} {int(ev.mask)}")
+                return self._vbuf.pop(0)
+
+    return GatedInotify
 
 
 def _subst(obj, mapping):
